@@ -284,7 +284,7 @@ Section Close.
       | Panic site => mkRes s2 [] (Panic site) | Err k => mkRes s2 [] (Err k)
       | Ok s3 => phaseA s3
       end end).
-  Proof. reflexivity. Qed.
+  Proof. unfold net_closed_raw, phaseA, phaseB, phaseC. Time reflexivity. Time Qed.
 
   Definition closed_fields (s : state) : Prop :=
     s_ppub s = [] /\ s_pnon s = [] /\ s_pwco s = [] /\ s_hq s = [] /\ s_tmo s = [] /\ s_cur s = None.
